@@ -34,7 +34,18 @@ def classify(case):
         return "C10:parser-panicked"
     if case.get("ast_panicked"):
         return "C10:ast-builder-panicked"
+    if case.get("valid_utf8") and not case.get("cst_built", True) and not case.get("gap"):
+        return "C10:no-cst-for-valid-utf8:token-ends-inside-a-character"
+    st = case.get("ast_structure") or []
+    if st:
+        m = re.match(r"AST node (\w+) [\d.]+ is not covered by its parent (\w+)", st[0])
+        if m:
+            # FuncCall::span() leaves out the object the function is called on
+            return "C10:ast-structure:not-covered-by-parent:" + ("FuncCall" if m.group(1) == "FuncCall" else m.group(1) + "-in-" + m.group(2))
+        return "C10:ast-structure:" + re.sub(r"[\d.]+", "N", st[0])[:80]
     gap = case.get("gap")
+    if gap and case.get("stream") == "fuel":
+        return "C10:parser-out-of-fuel:remaining-tokens-not-emitted"
     if gap:
         m = re.match(r"(\d+)\.\.(\d+)->(?:end)?(\d+):([0-9a-f]*)$", gap)
         if m:
@@ -62,7 +73,7 @@ def classify_tok(case):
 
 def run_k(run, tier, seed, drv):
     n = 600 if tier == "quick" else 12000
-    args = ["--seed", seed, "--n", n] + ([] if tier == "quick" else ["--max-tokens", 140])
+    args = ["--seed", seed, "--n", n] + ([] if tier == "quick" else ["--max-tokens", 140, "--fuel"])
     info = standard_k(run, drv, "C10", "c10", args, "K_C10_model_parser_vs_real_event_stream", classify)
     # the tokenizer wrapper: model with the real lexers as oracle vs the real token list
     nt = 600 if tier == "quick" else 6000
